@@ -205,7 +205,7 @@ Proof.
     assert (Hfree2 : BFree (merge_state s lo hi bd bits)).
     { apply (merge_free s lo hi bd p bits Fr Hp Hhb). destruct Hcase as [(-> & -> & _)|(-> & -> & _)]; tauto. }
     assert (Hlo2 : b_hdr (merge_state s lo hi bd bits) lo = Some (bits + 1, true)) by (rewrite merge_hdr, N.eqb_refl; reflexivity).
-    destruct (IH lo (bits + 1) (merge_state s lo hi bd bits) (mkBInv _ Herr Hgeo2 Hfree2) Hlo2 ltac:(lia)) as (I' & Hms & Hmx & Hu).
+    destruct (IH lo (bits + 1) (merge_state s lo hi bd bits) (mkBInv (merge_state s lo hi bd bits) Herr Hgeo2 Hfree2) Hlo2 ltac:(lia)) as (I' & Hms & Hmx & Hu).
     split; [exact I'|]. split; [rewrite Hms; reflexivity|]. split; [rewrite Hmx; reflexivity|].
     intros o b. rewrite Hu. unfold used. rewrite merge_hdr.
     destruct (N.eqb_spec o lo) as [->|Hn1].
